@@ -3,7 +3,8 @@
 A. positional parameters: ALL argument lists of length 0..2 (thorough 0..3) over {x, 'a b', $, 'q', empty; single
    arguments and thorough also a;b a|b >f a& backslash #c} x the
    reference forms $0 $1 ${2} $3 $9 $@ "$@" p$1s "p${1}s" $1$2 '$1' in a script frame and in a function frame, as
-   arguments of a command and inside the condition line of `if` and `while`;
+   arguments of a command and inside the condition line of `if` and `while`; A'': `$1 WORD ${2}` with WORD = every
+   metacharacter in every quoting style (the positional pass re-renders the line: WORD must come out unchanged);
 B. functions: names f, g-h, _k x both header spellings x arities 0..2, defined in the script or in a sourced file;
 C. `source` chains of depth 1..3 that define a variable, an alias, a function and change directory;
 D. status propagation: ALL bodies of up to 3 (thorough 4) lines over {succeeding command, failing command, exit 5,
@@ -175,6 +176,21 @@ def run(rep, tier):
                 call = 'fn ' + ' '.join(cq(a) for a in args)
                 jobs.append(({'main.sh': 'function fn {\n' + ''.join('    ' + l + '\n' for l in body.splitlines()) + '}\n%s\n' % call}, (), None))
                 meta.append(('A', 'function', args, ref))
+    # A'': a positional parameter NEXT TO other words: the line is re-rendered by the positional pass, the other words
+    # (every metacharacter in every quoting style, as in C01) must come out unchanged
+    from . import c01
+    companions = []
+    for t in c01.SIGMA + ['a b', 'a"b', "it's", 'x>y', 'a\\b']:
+        for st in c01.STYLES:
+            a = c01.write_arg(t, st)
+            if a is not None and '\t' not in a and '\n' not in a:
+                companions.append((t, a))
+    for t, a in companions:
+        jobs.append(({'main.sh': 'vh-argv $1 %s ${2}\n' % a}, ('x', 'y'), None))
+        meta.append(('A2', 'script', t, a))
+        if tier == 'thorough':
+            jobs.append(({'main.sh': 'function fn {\n    vh-argv $1 %s ${2}\n}\nfn x y\n' % a}, (), None))
+            meta.append(('A2', 'function', t, a))
     # B
     for name in ('f', 'g-h', '_k'):
         for header in ('function %s {', 'function %s() {'):
@@ -235,6 +251,14 @@ def run(rep, tier):
                     if any(ch in a for a in args):
                         dev, cls = 'positional-value-reparsed', name
                         break
+        elif m[0] == 'A2':
+            _, frame, t, a = m
+            rep.nontrivial += 1
+            exp = [['x', t, 'y']]
+            got = [list(r[2]) for r in o['recs'] if r[1] == 'vh-argv']
+            cls = '%s:%s' % (frame, 'quoted' if a[:1] in ('"', "'") else 'escaped')
+            if got != exp:
+                dev = 'word-next-to-positional-parameter'
         elif m[0] == 'B':
             _, where, name, arity = m
             exp = [[name] + ['c%d' % k for k in range(arity)] + [''] * (2 - arity)]
